@@ -106,6 +106,9 @@ def run(ctx):
     exist_rule(ctx, Syn_(ctx))
     split_rule(ctx, Syn_(ctx))
     recur_rule(ctx, prog, reach, Syn_(ctx))
+    # the division in create_milestones is discharged by its callers' guards: that supporting fact is checked here too
+    from props.c12 import div_rule
+    div_rule(ctx, prog, rid="C19.DIV")
 
     # ---------------- loops consume input
     r_loop = ctx.rule("C19.LOOP", "every loop in loader-reachable code advances an iterator / reader on each iteration")
